@@ -195,6 +195,15 @@ class Ctx:
         for sig, desc, path, found in self.violations:
             tail = "" if found else " no-failing-input-found"
             print(f"VIOLATION property={self.prop} replay={path}{tail}")
+            # the head of the replay file, so that a log of this run is enough to see what failed
+            try:
+                with open(path, errors="replace") as rf:
+                    for k, ln in enumerate(rf):
+                        if k >= 14:
+                            break
+                        print("  | " + ln.rstrip("\n")[:400])
+            except OSError:
+                pass
         print(f"{self.prop}: tier={self.tier} seed={self.seed} obligations={ob_ok}/{ob_total} "
               f"evaluations={cov['evaluations']} distinct={cov['distinct_nontrivial']} "
               f"violations={len(self.violations)} known={len(self.known_hits)} wall={ev['wall_s']}s")
